@@ -6,7 +6,7 @@ CONSTANTS
   RPs = {"autogen", "r2"}
   WithEmptyDB = FALSE
   CDurs = {0, 1, 2, 5, 6, 10, 11}
-  CSGDs = {0, 1, 8}
+  CSGDs = {0, 1, 2, 8}
   CReps = {0, 1}
   XNames = {"r2"}
   XDurs = {99, 1, 10}
@@ -14,7 +14,7 @@ CONSTANTS
   XReps = {99}
   UNames = {"-", "r2"}
   UDurs = {99, 0, 1, 2, 9}
-  USGDs = {99, 0, 1, 4}
+  USGDs = {99, 0, 1, 2, 4}
   UFull = TRUE
   AutoCreate = FALSE
   MaxSG = 0
